@@ -211,6 +211,7 @@ def run(prog, chk):
             else:
                 r4.violation(fn.file, fname, nn.get("l"), "depth-store-form:" + key, "unexpected store to skip_depth")
     directive_scope(prog, chk, a)
+    null_target_rule(prog, chk, "R9")
     r5 = chk.rule("R5-handler-directives", "CIF_TRAVERSE_END and positive (error) handler results leave the production without "
                   "further scanning, storing or callbacks and are returned unchanged (END becomes CIF_OK in parse_cif)", floor=8)
     from . import c03
@@ -324,6 +325,40 @@ def directive_scope(prog, chk, a):
                              % (why, want, depth), path=["L%s" % x for x in st.trail_lines()])
             else:
                 r8.ok(key + "[%s]" % ctx_str(ctx), "%s: depth %d at the exit" % (why, depth))
+
+
+def null_target_rule(prog, chk, rid, primary=True):
+    """No storing call is reached with a NULL handle: in syntax-only mode (no target CIF) containers and loops are NULL in
+    every production, and a loop is NULL in storing mode when its creation was tolerated as CIF_NULL_LOOP; the storing
+    functions dereference their handle before any check."""
+    r9 = chk.rule(rid + "-no-storing-call-on-a-null-handle", "in every context of the parser analysis (storing and syntax-only mode, "
+                  "container / loop present or NULL) each storing call that is reachable receives a handle the analysis does not "
+                  "know to be NULL: the recovery and skip paths keep the `!= NULL` guards of the ordinary paths",
+                  primary=primary, floor=6)
+    W = worlds(prog)
+    sites = {}
+    for wname, a in W.items():
+        for (fname, ctx), it in a.runs.items():
+            fn = prog.fn(fname)
+            for (b, i, r, c) in fn.calls():
+                if c.get("callee") in parserai.STORING_CALLS:
+                    sites.setdefault((fname, c.get("callee"), c.get("l")), None)
+        for fname, ctx, kind, what, node, skip, st in a.observations(("store",)):
+            args = node.get("args", [])
+            h = path(strip(args[0])) if args else None
+            v = st.sigma.get(h) if h else None
+            if v is not None and v.is_const() and v.value() == 0:
+                sites[(fname, what, node.get("l"))] = (wname, ctx, h, st, node)
+    for (fname, what, line), bad in sorted(sites.items(), key=str):
+        fn = prog.fn(fname)
+        key = "%s:%s@L%s" % (fname, what, line)
+        if bad:
+            wname, ctx, h, st, node = bad
+            r9.violation(fn.file, fname, line, "storing-call-on-null-handle:%s:%s" % (fname, what),
+                         "%s is reached with `%s` NULL (%s mode, context %s): it dereferences the handle before any check"
+                         % (what, h, wname, ctx_str(ctx)), path=["L%s" % x for x in st.trail_lines()][-25:])
+        else:
+            r9.ok(key, "never reached with a NULL handle")
 
 
 def ctx_str(ctx):
